@@ -45,6 +45,19 @@ CHECKS = {
          "counted as unchecked",
          "runtime differential monitoring (branch markers vs reference "
          "truth value)", "4 C03"),
+ "C07": ("exploration",
+         "Seeded random XDP programs with static and dynamic packet-size "
+         "guards and packet variable / packet array accesses of every "
+         "format and byte order run on packets of every length around the "
+         "guard; the kernel's output packet, return code and read values "
+         "are compared with struct.pack/unpack on the input packet, and the "
+         "reference machine's byte-level store events on the packet region "
+         "must stay inside the declared bytes.",
+         "trusts BPF_PROG_TEST_RUN; in-place updates of native 4/8-byte "
+         "packet variables cannot be exercised because those programs are "
+         "rejected by the verifier (recorded under C05)",
+         "runtime differential monitoring (packet bytes vs struct) + store-"
+         "event monitor in the reference VM", "4 C07"),
 }
 
 NOT_YET = "check not built yet in this round (design in DESIGN.md section 4)"
